@@ -32,6 +32,7 @@ def selOk (s : SchemaD) (doc : Doc) (vars : Vars) (T : String) : Sel → Bool
   | .field _ name _ dirs _ hasSub sub =>
     dirsOk vars dirs &&
     (if name == "__typename" then !hasSub
+     else if isMeta name then false            -- `__schema` / `__type`: introspection is outside this predicate (C15)
      else
       match fieldOf s T name with
       | none => false
@@ -126,5 +127,85 @@ def validDocWhy (s : SchemaD) (doc : Doc) (vars : Vars) : String :=
   else if !fragsOk s doc vars then "fragment-ill-typed"
   else if !fragsAcyclic doc then "fragment-cycle"
   else ""
+
+
+/-! ### rank measures (fuel sufficiency, `Props/C04_total.lean`) -/
+
+mutual
+/-- nested `collect_fields` calls needed below a selection (`rk` ranks fragment names) -/
+def selNeed (rk : String → Nat) : Sel → Nat
+  | .field _ _ _ _ _ _ _ => 0
+  | .inline _ _ sub => 1 + selsNeed rk sub
+  | .spread name _ => 1 + rk name
+def selsNeed (rk : String → Nat) : List Sel → Nat
+  | [] => 0
+  | x :: xs => max (selNeed rk x) (selsNeed rk xs)
+end
+
+mutual
+/-- nested `execute_fields` levels needed below a selection (`ek` ranks fragment names) -/
+def selDepth (ek : String → Nat) : Sel → Nat
+  | .field _ _ _ _ _ _ sub => 1 + selsDepth ek sub
+  | .inline _ _ sub => selsDepth ek sub
+  | .spread name _ => ek name
+def selsDepth (ek : String → Nat) : List Sel → Nat
+  | [] => 0
+  | x :: xs => max (selDepth ek x) (selsDepth ek xs)
+end
+
+mutual
+/-- every selection list inside needs at most `B` nested collect calls -/
+def selBounded (rk : String → Nat) (B : Nat) : Sel → Bool
+  | .field _ _ _ _ _ _ sub => decide (selsNeed rk sub ≤ B) && selsBoundedIn rk B sub
+  | .inline _ _ sub => decide (selsNeed rk sub ≤ B) && selsBoundedIn rk B sub
+  | .spread _ _ => true
+def selsBoundedIn (rk : String → Nat) (B : Nat) : List Sel → Bool
+  | [] => true
+  | x :: xs => selBounded rk B x && selsBoundedIn rk B xs
+end
+
+def selsBounded (rk : String → Nat) (B : Nat) (sels : List Sel) : Bool :=
+  decide (selsNeed rk sels ≤ B) && selsBoundedIn rk B sels
+
+/-- least rank of a fragment name for `collect_fields` nesting, by `fuel` unfoldings of the fragment table -/
+def rkOf (doc : Doc) : Nat → String → Nat
+  | 0 => fun _ => 0
+  | n + 1 => fun name =>
+    match doc.fragment? name with
+    | some fr => selsNeed (rkOf doc n) fr.sels
+    | none => 0
+
+def ekOf (doc : Doc) : Nat → String → Nat
+  | 0 => fun _ => 0
+  | n + 1 => fun name =>
+    match doc.fragment? name with
+    | some fr => selsDepth (ekOf doc n) fr.sels
+    | none => 0
+
+def docRk (doc : Doc) : String → Nat := rkOf doc (doc.frags.length + 1)
+def docEk (doc : Doc) : String → Nat := ekOf doc (doc.frags.length + 1)
+
+mutual
+/-- the largest `selsNeed` of any selection list inside -/
+def selMaxNeed (rk : String → Nat) : Sel → Nat
+  | .field _ _ _ _ _ _ sub => max (selsNeed rk sub) (selsMaxNeedIn rk sub)
+  | .inline _ _ sub => max (selsNeed rk sub) (selsMaxNeedIn rk sub)
+  | .spread _ _ => 0
+def selsMaxNeedIn (rk : String → Nat) : List Sel → Nat
+  | [] => 0
+  | x :: xs => max (selMaxNeed rk x) (selsMaxNeedIn rk xs)
+end
+
+def selsMaxNeed (rk : String → Nat) (sels : List Sel) : Nat := max (selsNeed rk sels) (selsMaxNeedIn rk sels)
+
+def docBound (doc : Doc) : Nat :=
+  ((doc.ops.map fun o => selsMaxNeed (docRk doc) o.sels) ++ (doc.frags.map fun f => selsMaxNeed (docRk doc) f.sels)).foldl max 0
+
+/-- decidable certificate of acyclicity with explicit ranks (sound by `Props.C04.ranked_of_rankedB`) -/
+def rankedB (doc : Doc) : Bool :=
+  (doc.frags.all fun fr =>
+    (decide (selsNeed (docRk doc) fr.sels ≤ docRk doc fr.name) && decide (selsDepth (docEk doc) fr.sels ≤ docEk doc fr.name))
+      && selsBounded (docRk doc) (docBound doc) fr.sels)
+  && doc.ops.all fun o => selsBounded (docRk doc) (docBound doc) o.sels
 
 end PyGql.Spec
